@@ -360,13 +360,19 @@ func genC10WebReq(t *simrt.Tape, withConfigOps bool) string {
 			q.Set("unit", []string{"ms", "minimum", "parsecs"}[t.Choose(K, 3)])
 		}
 	}
-	if len(q) == 0 {
-		return path
+	r := path
+	if len(q) > 0 {
+		r += "?" + q.Encode()
 	}
-	return path + "?" + q.Encode()
+	if t.Bool(K, 8) {
+		// the client goes away while the page is being sent
+		r = fmt.Sprintf("!%d!%s", []int{0, 1, 700, 4096, 30000}[t.Choose(K, 5)], r)
+	}
+	return r
 }
 
 func mutatingQuery(target string) bool {
+	target, _ = splitAbort(target)
 	u, err := url.Parse(target)
 	if err != nil {
 		return false
@@ -386,6 +392,16 @@ func c10WebProfile(t *simrt.Tape) []byte {
 }
 
 func respDiff(a, b webResp) string {
+	if a.Broken {
+		// a is what reached a client that went away, b the complete answer
+		if a.Code != b.Code {
+			return fmt.Sprintf("status %d vs %d", a.Code, b.Code)
+		}
+		if !strings.HasPrefix(b.Body, a.Body) {
+			return "delivered part is not a prefix of the complete answer: " + firstDiff(a.Body, b.Body)
+		}
+		return ""
+	}
 	if a.Code != b.Code {
 		return fmt.Sprintf("status %d vs %d (%q vs %q)", a.Code, b.Code, short(a.Body, 120), short(b.Body, 120))
 	}
@@ -430,7 +446,7 @@ func c10WebSequential(x *xctx) *violation {
 		}
 		var ref webResp
 		freshProcess(true)
-		res, _ := webSession(x, cfg, prof, settingsBefore[i], func(s *c19session) { ref = s.do(r) })
+		res, _ := webSession(x, cfg, prof, settingsBefore[i], func(s *c19session) { plain, _ := splitAbort(r); ref = s.do(plain) })
 		if v := resultViolation(res); v != nil {
 			v.Class = "ref-" + v.Class
 			return v
@@ -442,6 +458,9 @@ func c10WebSequential(x *xctx) *violation {
 			mutSeen = true
 		} else if mutSeen && resps[i].Code == 200 {
 			x.probe("plain_request_after_filtering_request")
+		}
+		if resps[i].Broken {
+			x.fault("net:client-gone-mid-response", 1)
 		}
 		x.states[strings.SplitN(r, "?", 2)[0]+fmt.Sprint(resps[i].Code)] = true
 	}
@@ -503,10 +522,13 @@ func c10WebConcurrent(x *xctx) *violation {
 			}
 			var ref webResp
 			freshProcess(true)
-			rres, _ := webSession(x, seq, prof, nil, func(s *c19session) { ref = s.do(r) })
+			rres, _ := webSession(x, seq, prof, nil, func(s *c19session) { plain, _ := splitAbort(r); ref = s.do(plain) })
 			if v := resultViolation(rres); v != nil {
 				v.Class = "ref-" + v.Class
 				return v
+			}
+			if resps[i][j].Broken {
+				x.fault("net:client-gone-mid-response", 1)
 			}
 			if d := respDiff(resps[i][j], ref); d != "" {
 				return violf("concurrency-dependent-response", "GET %s served concurrently with %v differs from the same request served alone: %s", r, all, d)
